@@ -1,5 +1,6 @@
 CONSTANTS
   ScenTab <- TVScenTab
+  KnownSigs = {}
 INIT TInit
 NEXT TNext
 INVARIANT Report
